@@ -39,6 +39,10 @@ def tag(v):
     return {'t': 'json', 'v': json.dumps(v)}
 
 
+class UserList(list):
+    """What an application may well pass to send(): a list subclass."""
+
+
 def untag(d):
     t = d['t']
     if t == 'none':
@@ -49,6 +53,11 @@ def untag(d):
         return bytearray(base64.b64decode(d['v']))
     if t == 'text':
         return d['v']
+    if t == 'odict':
+        import collections
+        return collections.OrderedDict(json.loads(d['v']))      # a dict subclass instance
+    if t == 'ulist':
+        return UserList(json.loads(d['v']))                     # a list subclass instance
     if t == 'unjson':
         # a value json.dumps() cannot serialise (what a connect handler may well return)
         return {'error': 'banned', 'until': {1}}
